@@ -68,6 +68,16 @@ def describe(r: IntRangeExpr):
         back = ["ok", list(IntRangeExpr.from_str(text))]
     except BaseException as e:  # noqa: BLE001
         back = ["raise", exn_family(e)]
+    # membership: `v in r` is true of exactly the iterated values (whatever __contains__ the class may define)
+    valset = set(vals)
+    lo, hi = (min(vals), max(vals)) if vals else (0, 0)
+    probes = sorted(valset | {lo - 1, lo - 2, hi + 1, hi + 2} | {v + d for v in list(valset)[:200] for d in (-1, 1)})[:600]
+    try:
+        wrong = [v for v in probes if (v in r) != (v in valset)]
+    except BaseException as e:  # noqa: BLE001
+        wrong = ["raise", type(e).__name__]
+    if wrong:
+        return [vals, n, gets, toks, back, ["`in` disagrees with iteration for", wrong[:10]]]
     return [vals, n, gets, toks, back]
 
 
@@ -405,7 +415,7 @@ class C13(core.PropBase):
         if case["k"] == "b":
             n = obs[1][0][0] if isinstance(obs[1][0][0], int) else -1
             return [f"{kind}:ok", "long:len>=2^62" if n >= 2 ** 62 else "long:len>=2^32" if n >= 2 ** 32 else "long:len<2^32"]
-        vals, n, gets, toks, back = obs[1]
+        vals, n, gets, toks, back = obs[1][:5]
         ks = [f"{kind}:ok", f"len={min(n, 8) if n < 8 else '8+'}", f"ranges={min(toks.count('M') + 1, 6)}"]
         if case["k"] == "l" and any(isinstance(v, str) for v in case["vs"]):
             ks.append("from_list:with-strings")
